@@ -8,6 +8,8 @@ CONSTANTS
   MaxMig = 4
   Serial = FALSE
   Requesters = {1, 2}
+  MCPages <- Pages2
+  SkipZero = FALSE
   AcceptGuard = "handling"
 INVARIANTS TypeOK ContentsCopied NothingElseChanged CompleteOnce OneAtATime RoutedBack InRange AllServed
 CHECK_DEADLOCK FALSE
